@@ -31,6 +31,14 @@ CHECKS = {
   technique="TLA+ specs (Sharding.tla router model, RedisKeyspace.tla as the one-keyspace semantics) model-checked with TLC; TLC-exported and random command sequences run on real ShardedActorStates with N in {1,2,4,(3,16)} over all entry points; traces validated by TLC (KsTrace.tla) against the ONE-keyspace specification",
   text="design level: OneHome / ReadsAgree / Refines for the router and counterexamples for the two as-built deviations; implementation level: an N-shard server is checked as an implementation of RedisKeyspace: every reply and the keyspace observed through commands (KEYS/TYPE/PTTL/dumps) after every step, with GET/SET spread over generic, fast, pooled and batched entry points, plus two-key command and full-SCAN families",
   note="UTF-8 keys; shared harness clock; three open findings reported as KNOWN-FINDING"),
+ "C04": dict(
+  technique="TLA+ spec (Connection.tla read loop / collectors / sequential loop) model-checked with TLC; TLC-exported wires and read deliveries replayed on the REAL OptimizedConnectionHandler (verif hook, one segment per read); decoded output judged by TLC (ConnTrace.tla) against sequential RedisKeyspace!Do",
+  text="design level: OneReplyEachInOrder for all wires of <= 4 frames and all deliveries, with the latent as-built collector counterexample; implementation level: all 7212 exported (wire, delivery) scenarios and thousands of random pipelines (1-9 commands, thresholds 1/2/3/6, min buffer 0-200 bytes, cuts down to single bytes, 1 and 4 shards) run through the real handler; TLC requires one reply per command, in order, equal to the sequential run, an error for a malformed frame, and the sequential keyspace at the end",
+  note="wall clock: no TTL-dependent commands; frames after a malformed one are not judged"),
+ "C05": dict(
+  technique="TLA+ transaction rules (ConnTrace.tla StepA/TxnFold on RedisKeyspace!Do); scripts with a second client writing in every gap run through TWO real connection handlers; every reply and the final keyspace judged by TLC",
+  text="2500 (thorough 30000) scripts: watched key of four types, bodies with runtime failures, unknown commands, wrong arity, nested MULTI, WATCH inside MULTI, EXEC and DISCARD, client B writing same value / other value / delete / type-specific change / change-then-revert in every gap; TLC checks QUEUED/EXECABORT/nil rules, EXEC = sequential fold, and that aborted or discarded transactions leave the keyspace untouched",
+  note="writes between A's commands only; value-based WATCH; one open finding reported as KNOWN-FINDING"),
  "C06": dict(
   technique="TLA+ spec (Replication.tla: executor + CRDT state + clock per node, reordering/duplicating/delaying network, anti-entropy) model-checked with TLC; TLC-exported step sequences replayed on real ReplicatedShardActors with the harness as network; traces validated by TLC (ReplTrace.tla)",
   text="design level: ServedIsState at every step and Converged at quiescence on 3 nodes for register and hash command sets; each repaired defect and the open type-change finding are reproduced by an as-built switch; implementation level: every exported configuration and thousands of random runs (2-4 nodes, all listed commands, duplicates, delays, anti-entropy) are replayed on the real actors and TLC compares replication state and served value of EVERY node after EVERY step, and agreement whenever nothing is in flight",
